@@ -350,6 +350,18 @@ TCancelRaw ==
          utxo == ToSet(Rec[l].obs.utxo) IN
      /\ (Ok(e) /\ Cardinality(m) = 1 /\ w \notin aux.dirty) =>
            Check(~ChainConfirmed(st, w, CHOOSE x \in m : TRUE, utxo), "C05", "CancelRefused", e, "cancelled a transaction the chain had confirmed")
+     \* "affects no other transaction", in a form that holds whatever the wallet's own refresh inside the call finds: what is
+     \* reserved for ANOTHER entry stays reserved (or is spent on the chain), what ANOTHER entry awaits is not removed
+     \* (not judged when another outstanding entry carries a TTL: the refresh inside the call may expire that one)
+     /\ (Ok(e) /\ Cardinality(m) = 1 /\ w \notin aux.dirty
+         /\ \A u \in DOMAIN st.w[w].txs : st.w[w].txs[u].ttl = 0) =>
+           LET t == CHOOSE x \in m : TRUE
+               en == st.w[w].txs[t] IN
+           Check(\A k \in DOMAIN st.w[w].outs :
+                    (~(st.w[w].outs[k].tx = en.id /\ st.w[w].outs[k].acct = en.acct)) =>
+                       /\ (st.w[w].outs[k].st = "Locked") => (k \in DOMAIN S2.w[w].outs /\ S2.w[w].outs[k].st \in {"Locked", "Spent"})
+                       /\ (st.w[w].outs[k].st = "Unconfirmed") => (k \in DOMAIN S2.w[w].outs),
+                 "C05", "CancelIsRollback", e, "raw: another transaction's outputs")
      /\ (~Ok(e) /\ e.res \in {"err:notfound"}) => Check(S2.w[w].ctxs = st.w[w].ctxs, "C05", "CancelRefusedUnchanged", e, "raw")
      /\ IF ~CheckM THEN TRUE
         ELSE LET r == Cancel(st, w, a, aux.nodeUp) IN
